@@ -640,6 +640,7 @@ def run_check(prop, tier, seed=None, runs=None, wall=None, workers=None, chunk=N
             'distinct_states': len(agg['states']),
             'distinct_schedules': len(agg['scheds']),
             'undecided': dict(sorted(agg['undecided'].items())),
+            'reach_gaps': [n for n in getattr(mod, 'REACH', []) if not agg['stats'].get('probe:' + n) and not agg['stats'].get('fault:' + n)],
             'violation_events': agg['nviol'],
             'violation_classes_beyond_minimised': extra_classes,
             'known_findings_hit': known_hits,
@@ -660,7 +661,8 @@ def run_check(prop, tier, seed=None, runs=None, wall=None, workers=None, chunk=N
     print(
         f'{prop} {tier}: runs={agg["runs"]} ticks={agg["ticks"]} faults={sum(evidence["coverage"]["faults_fired"].values())} '
         f'distinct={len(agg["distinct"])} states={len(agg["states"])} wall={wall_s:.1f}s '
-        f'violations={unlisted} known={len(known_hits)} truncated={truncated} runs_digest={evidence["coverage"]["runs_digest"]}',
+        f'violations={unlisted} known={len(known_hits)} truncated={truncated} runs_digest={evidence["coverage"]["runs_digest"]}'
+        + (f' REACH-GAPS={evidence["coverage"]["reach_gaps"]}' if evidence['coverage']['reach_gaps'] else ''),
         flush=True,
     )
     return 1 if unlisted else 0
